@@ -51,6 +51,9 @@ def case_strategy(draw, big=False):
             l['attach'] = at
         lds.append(l)
     case['loads'] = lds
+    nat = sum(len(l.get('attach', [])) for l in lds)
+    if nat >= 2 and draw(st.booleans()):
+        case['attach_perm'] = list(draw(st.permutations(list(range(nat)))))
     return case
 
 
@@ -146,38 +149,45 @@ def check(case):
         if rep['source_data'][k]['pulse'] != row or rep['sources_listing'][k][0] != row:
             fails.append(('source:listing', 'source %s is listed as pulse %d / %d, named row %d'
                           % (s['pulse'], rep['sources_listing'][k][0], rep['source_data'][k]['pulse'], row)))
-    # --- loads
-    order = {'z': 0, 'rlc': 1, 'trap': 2, 'laplace': 3}
+    # --- loads: the program registers a load when its first attachment is read and appends the pulses in the
+    # order of the attachment options
     lds = case['loads']
-    srt = sorted(range(len(lds)), key=lambda i: (order[lds[i]['kind']], i))
-    listed = []
-    for l in rep['loads']:
-        listed.append(l['pulse'])
-    want_listed = []
-    for pos, i in enumerate(srt):
-        want = []
-        for at in lds[i]['attach']:
-            if at == 'all':
-                labels.append('attach-all')
-                want += [n for b in blocks for n in rows_by_tag[b['tag']]]
-            elif isinstance(at, dict) and at.get('all'):
-                labels.append('attach-all-object')
-                want += rows_by_tag[at['tag']]
+    seq = build.attach_sequence(lds, case.get('attach_perm'))
+    reg_order = []
+    pulses_of = {}
+    for num, i, at in seq:
+        if num not in reg_order:
+            reg_order.append(num)
+        want = pulses_of.setdefault(num, [])
+        if at == 'all':
+            labels.append('attach-all')
+            want += [n for b_ in blocks for n in rows_by_tag[b_['tag']]]
+        elif isinstance(at, dict) and at.get('all'):
+            labels.append('attach-all-object')
+            want += rows_by_tag[at['tag']]
+            if 'tag!=position' in labels:
+                nt = True
+        else:
+            want.append(named_row(at))
+            if isinstance(at, dict):
+                labels.append('addr-obj')
                 if 'tag!=position' in labels:
                     nt = True
-            else:
-                want.append(named_row(at))
-                if isinstance(at, dict):
-                    labels.append('addr-obj')
-                    if 'tag!=position' in labels:
-                        nt = True
-                if topo.pulses[want[-1] - 1].kind == 'junc':
-                    labels.append('addressed-junction-pulse')
-        got = [p.idx + 1 for p in m.loads[pos].pulses] if pos < len(m.loads) else None
-        if got != want:
-            form = 'all' if any(a == 'all' or (isinstance(a, dict) and a.get('all')) for a in lds[i]['attach']) else 'single'
-            fails.append(('load:wrong-pulses:' + form, 'load %d %s acts on pulses %s, named table rows %s' % (pos + 1, lds[i]['attach'], got, want)))
-        want_listed += want
+            if topo.pulses[want[-1] - 1].kind == 'junc':
+                labels.append('addressed-junction-pulse')
+    want_listed = []
+    if len(m.loads) != len(reg_order):
+        fails.append(('load:count', '%d loads in the model, %d given' % (len(m.loads), len(reg_order))))
+    else:
+        for pos, num in enumerate(reg_order):
+            want = pulses_of[num]
+            got = [p.idx + 1 for p in m.loads[pos].pulses]
+            if got != want:
+                i_ = [i for n_, i, _ in seq if n_ == num][0]
+                form = 'all' if any(a == 'all' or (isinstance(a, dict) and a.get('all')) for a in lds[i_]['attach']) else 'single'
+                fails.append(('load:wrong-pulses:' + form, 'load %d %s acts on pulses %s, named table rows %s' % (num, lds[i_]['attach'], got, want)))
+            want_listed += want
+    listed = [l['pulse'] for l in rep['loads']]
     if listed != want_listed:
         fails.append(('load:listing', 'load listing names pulses %s, expected %s' % (listed, want_listed)))
     # --- the same model with the addresses in the other form
